@@ -58,7 +58,30 @@ def _decimal_grid(draw: Any) -> dict[str, Any]:
 
 
 @st.composite
+def _extreme_grid(draw: Any) -> dict[str, Any]:
+    """Step grids at both ends of the scale: 5e7 .. 2e9 cells (where (value - low) / step is no
+    longer exact to 1e-8) and steps of 1e-10 .. 2.5e-8 on ranges a few steps wide (where absolute
+    tolerances of 1e-8 are larger than a step).  With a second grid of twice / half the step on
+    the same range for the same name."""
+    if draw(st.booleans()):
+        step = draw(st.sampled_from([0.001, 0.002, 0.01, 0.25, 1e-4, 0.5]))
+        n = draw(st.integers(5 * 10**7, int(9e8 / max(step, 0.45))))
+        low = draw(st.sampled_from([0.0, 0.0, -1000.0, 1.0]))
+        high = low + n * step + draw(st.sampled_from([0.0, 0.0, 0.3])) * step
+    else:
+        step = draw(st.sampled_from([3e-9, 1e-9, 7e-9, 2.5e-8, 1e-10]))
+        n = draw(st.integers(1, 12))
+        low = draw(st.sampled_from([0.0, 0.0, 1e-8, -1e-8]))
+        high = low + (n + draw(st.sampled_from([0.0, 0.34, 0.5, 0.9]))) * step
+    spec = {"kind": "Float", "low": low, "high": high, "log": False, "step": step, "extreme": True}
+    f = draw(st.sampled_from([2.0, 0.5]))
+    return {"spec": spec, "alt": {**spec, "step": step * f}}
+
+
+@st.composite
 def param_spec(draw: Any) -> dict[str, Any]:
+    if draw(st.integers(0, 7)) == 0:
+        return draw(_extreme_grid())
     spec = draw(
         st.one_of(
             _decimal_grid(),
@@ -127,13 +150,20 @@ def case_study(draw: Any, tier: str = "quick") -> dict[str, Any]:
         p["spec"].get("log") and p["spec"]["kind"] == "Float" and p["spec"]["high"] <= p["spec"]["low"] * (1 + 1e-12) and p["spec"]["high"] > p["spec"]["low"] for p in params
     ):
         sk = "tpe"
+    if sk == "gp" and any(p["spec"].get("extreme") for p in params):
+        sk = "tpe"  # (the GP sampler enumerates the cells of a stepped parameter)
     n = draw(st.integers(4, 14))
     trials = []
+    # per parameter either a scattered use of the alternative range in the first half of the study,
+    # or a switch: every trial before trial s uses the alternative, every later one the main
+    # range (the relative search space is then the alternative's when the name first comes with
+    # the main range)
+    switch = [draw(st.one_of(st.none(), st.integers(2, max(2, n - 2)))) if p["alt"] is not None else None for p in params]
     for i in range(n):
         late = i >= n // 2
         trials.append(
             {
-                "use_alt": [(not late) and p["alt"] is not None and draw(st.integers(0, 2)) == 0 for p in params],
+                "use_alt": [(i < switch[j]) if switch[j] is not None else ((not late) and p["alt"] is not None and draw(st.integers(0, 2)) == 0) for j, p in enumerate(params)],
                 "end": draw(st.sampled_from(["complete", "complete", "complete", "prune", "fail"])),
                 "enqueue": draw(st.one_of(st.none(), st.none(), st.lists(st.one_of(st.none(), st.floats(0, 1)), min_size=n_par, max_size=n_par))),
                 "value": draw(st.integers(-5, 5)),
@@ -290,9 +320,13 @@ def run_study(case: dict[str, Any], ctx: Ctx) -> None:
                 sv = t.params.get(name, "<missing>")
                 if not _same(sv, v):
                     raise Violation("stored-param-differs", f"backend={case['backend']} trial {t.number} param {name}: objective received {v!r} ({type(v).__name__}), study.trials holds {sv!r} ({type(sv).__name__})", case)
-                iv = t.distributions[name].to_internal_repr(sv)
-                if not t.distributions[name]._contains(iv) and gen.dist_class(_spec_of(t.distributions[name])) != "float_log":
-                    raise Violation("stored-param-not-contained", f"trial {t.number} {name}: {sv!r} not in {t.distributions[name]!r}", case)
+                # membership of the recorded value in the recorded distribution, by the same exact
+                # oracle as above (optuna's own `_contains` is a heuristic with a tolerance of 1e-8
+                # cells, which rejects true grid points of grids beyond ~1e8 cells)
+                sd = t.distributions[name]
+                why = _member(sd, gen.dist_class(_spec_of(sd)), sv)
+                if why is not None:
+                    raise Violation("stored-param-not-contained", f"trial {t.number} {name}: {sv!r} not in {sd!r}: {why}", case)
         classes = sorted({gen.dist_class(p["spec"]) for p in params})
         ctx.case(
             fp=case,
